@@ -1192,7 +1192,10 @@ def derived_bookkeeping_search(ctx):
         qs = rnd.sample(range(n), nq)
         vals = [round(rnd.uniform(-3, 3), 4) for _ in range(npar)]
         tr = rnd.random() < 0.75
-        return f"gates.{nm}({', '.join(map(str, qs))}, {', '.join(map(repr, vals))}{'' if tr else ', trainable=False'})"
+        code = f"gates.{nm}({', '.join(map(str, qs))}, {', '.join(map(repr, vals))}{'' if tr else ', trainable=False'})"
+        # the public attribute flipped after construction (both directions): `Circuit.add` books
+        # the gate by the attribute it has when it is added
+        return f"flip({code}, {not tr})" if rnd.random() < 0.35 else code
 
     def consistent(x):
         flat = _flat_gates(x)
@@ -1225,6 +1228,8 @@ def derived_bookkeeping_search(ctx):
     import qibo
 
     ns_["gates"] = qibo.gates
+    FLIP = "def flip(g, t):\n    g.trainable = t\n    return g\n"
+    exec(FLIP, ns_)
     for dname, (dcode, dfn) in derivs.items():
         for trial in range(8 if ctx.thorough else 3):
             n = rnd.randint(2, 3)
@@ -1247,11 +1252,12 @@ def derived_bookkeeping_search(ctx):
                 if not issues:
                     continue
                 bad += 1
-                key = f"derived-bookkeeping:{dname}:add-to-{'+'.join(sorted(set(order)))}:{'original' if who == 'c' else 'derived'}"
+                flipped = ":flipped-attribute" if any("flip(" in l for l in lines) else ""
+                key = f"derived-bookkeeping{flipped}:{dname}:add-to-{'+'.join(sorted(set(order)))}:{'original' if who == 'c' else 'derived'}"
                 if key in seen:
                     continue
                 seen.add(key)
-                code = ("from qibo import Circuit, gates\nfrom qibo.gates.abstract import ParametrizedGate\nfrom qibo.gates.special import FusedGate\n" + "\n".join(lines) + "\n"
+                code = ("from qibo import Circuit, gates\nfrom qibo.gates.abstract import ParametrizedGate\nfrom qibo.gates.special import FusedGate\n" + FLIP + "\n".join(lines) + "\n"
                         f"x = {who}\nflat = []\nfor g in x.queue: flat += list(g.gates) if isinstance(g, FusedGate) else [g]\n"
                         "par = [g for g in flat if isinstance(g, ParametrizedGate)]; tr = [g for g in par if g.trainable]\n"
                         "assert sorted(map(id, x.parametrized_gates)) == sorted(map(id, par)), 'parametrized_gates lists a gate that is not in the queue (or misses one)'\n"
